@@ -216,7 +216,7 @@ impl Explorer {
             self.stats.stop.store(true, Ordering::Relaxed);
         }
         let mut r = r;
-        if let (Some(p), Some(f)) = (r.panic.as_ref(), self.panic_to_violation) { let v = f(p, &format!("scenario {}", &sc.name[..sc.name.len().min(60)])); if !v.sig.ends_with("not-a-C20-verdict") { r.violations.push(v); } }
+        if let (Some(p), Some(f)) = (r.panic.as_ref(), self.panic_to_violation) { let v = f(p, &format!("scenario {}", &sc.name[..sc.name.len().min(60)])); if !v.sig.ends_with("not-a-verdict") { r.violations.push(v); } }
         if let Some(p) = r.panic.as_ref() {
             // a panic whose location lies in the harness itself (relative path src/...) is a machinery failure, never a verdict
             let loc = p.rsplit(" @ ").next().unwrap_or("");
